@@ -28,6 +28,8 @@ type C04Case struct {
 	Sign      string        `json:"sign,omitempty"` // debsign | dpkg-sig | rpm | apk2048 | apk4096
 	DescLen   int           `json:"desc_len,omitempty"`
 	ScriptLen int           `json:"script_len,omitempty"`
+	// Changelog: a changelog is configured
+	Changelog bool `json:"changelog,omitempty"`
 	// ScriptMask: with Scripts, the subset of the format's script slots that is configured (0 = all)
 	ScriptMask uint `json:"script_mask,omitempty"`
 }
@@ -126,6 +128,11 @@ func init() {
 					{Src: "/opt/" + longName(138), Dst: "/usr/bin/longtarget", Type: "symlink"},
 					{Src: "/usr/bin/t", Dst: "/opt/" + longName(130), Type: "symlink"},
 					{Src: "/usr/share/donn\u00e9es/t", Dst: "/usr/bin/nonascii-target", Type: "symlink"},
+					{Src: "/opt/My App/bin/tool", Dst: "/usr/bin/blank-target", Type: "symlink"},
+					{Src: "/opt/a#b/back\\slash", Dst: "/usr/bin/hash-target", Type: "symlink"},
+					{Src: "../rel ative/t\tab", Dst: "/usr/bin/rel-target", Type: "symlink"},
+					{Src: "/opt/x", Dst: "/usr/bin/my link", Type: "symlink"},
+					{Dst: "/opt/my dir/sub#dir", Type: "dir"},
 					{Src: "etc/app.conf", Dst: "/opt/owner31", Owner: strings.Repeat("o", 31), Group: strings.Repeat("g", 31)},
 					{Src: "etc/app.conf", Dst: "/opt/group-nonascii", Owner: "app", Group: "gr\u00fcppe"},
 					{Dst: "/opt/dir-owner31", Type: "dir", Owner: strings.Repeat("o", 31), Group: strings.Repeat("g", 31)},
@@ -191,6 +198,16 @@ func init() {
 			}
 			// signed variants
 			payloads := [][]model.Entry{nil, {ts[0]}, {ts[0], ts[6]}}
+			// a changelog (deb ships it as a generated payload member below /usr/share/doc/<name>/, rpm in header tags)
+			for _, f := range []string{"deb", "rpm"} {
+				for _, l := range [][]model.Entry{nil, {ts[0]}, {{Src: "doc/README", Dst: "/usr/share/doc/pkg/README"}}, {{Dst: "/usr/share/doc", Type: "dir"}}, {{Src: "tree", Dst: "/usr/share/doc/pkg/examples", Type: "tree"}}} {
+					for _, s := range c04Settings(f) {
+						if !yield(C04Case{Class: "changelog", Format: f, Setting: s, List: l, Changelog: true}) {
+							return
+						}
+					}
+				}
+			}
 			// the file the command line tool writes (to a fresh path, over an existing longer file)
 			for _, f := range Formats {
 				for _, cls := range []string{"cli-fresh", "cli-over-existing"} {
@@ -274,6 +291,9 @@ func c04Doc(env *engine.Env, c C04Case) (fixture.Doc, error) {
 	}
 	if c.Sign != "" {
 		signDoc(env, d, c.Format, c.Sign)
+	}
+	if c.Changelog {
+		d["changelog"] = t.P("changelog.yaml")
 	}
 	return d, nil
 }
